@@ -72,6 +72,10 @@ def run():
         key = mech_key(cfg, fn, est)
         if key == "trimmed-estimator" and (ensemble.cell_key(cfg), f"untrimmed:{fn}") in confirmed:
             key = mech_key(cfg, fn, "untrimmed")      # the untrimmed estimator of the same runs is biased too
+        if cfg["clustering"] and key.startswith("biased-"):
+            sib = [c for c in cells if c["target"] == cfg["target"] and c["kernel"] == cfg["kernel"] and c["N"] == cfg["N"] and not c["clustering"]]
+            if sib and not any((ensemble.cell_key(c), name) in confirmed for c in sib):
+                key = "clustering-state-dependent-kernel"     # same target/kernel/N/estimand without clustering is clean
         ck.violation(key, f"target {cfg['target']}, {cfg['kernel']}/{cfg['resample']}/clustering={cfg['clustering']}, N={cfg['N']}: estimator {est} of "
                      f"{fn}: mean error {r1['b']:+.5g} +- {r1['se']:.2g} (z={r1['z']:.1f}, allowance {r1['allowance']:.3g}); on 2R fresh seeds "
                      f"{r2['b']:+.5g} +- {r2['se']:.2g} (z={r2['z']:.1f})", dict(cfg=cfg, estimand=name))
